@@ -7,7 +7,7 @@
    control nodes and every notion of halting: nothing observable can be dropped, duplicated or reordered. *)
 From Coq Require Import ZArith List String Lia.
 From Verif Require Import Base.Word256 Base.PyInt C15.Syntax C15.GenUtils C15.Optimizer C15.FoldSound C15.OptSound
-  C15.OptTree C15.OptTreeSound C15.Bytes C15.MergeSound C15.MemInst C15.SymSound.
+  C15.OptTree C15.OptTreeSound C15.Bytes C15.MergeSound C15.MemInst C15.SymSound C15.SymHered.
 Import ListNotations.
 Open Scope Z_scope.
 
@@ -126,6 +126,21 @@ Theorem optimizer_keeps_symbols_unique :
   exists S', usyms e' = Ok S' /\ incl S' S.
 Proof. exact optimize_syms. Qed.
 Print Assumptions optimizer_keeps_symbols_unique.
+
+(* (3) optimize never raises the symbol CompilerPanics (non-unique / missing symbols = Err KeyErr) on front-end-shaped
+   input: markers named by leaves and unique_symbols succeeding at every node (hereditary, because `deploy` keeps the
+   runtime's markers apart); both conditions are checked on the IR of every compiled contract by tools/checks/c15.py.
+   Proof: a hereditary invariant (no marker counted twice at any node) is preserved by every rule, the merge loops,
+   rebuilt nodes and re-optimisation (SymHered.v) *)
+Theorem optimize_never_symbol_panic :
+  forall cancun e, wf e -> symleaf e = true -> usyms_all e -> optimize cancun e <> Err KeyErr.
+Proof. exact optimize_no_symbol_panic_front_end. Qed.
+Print Assumptions optimize_never_symbol_panic.
+Theorem optimize_keeps_hereditary_uniqueness :
+  forall f cancun pc e, wf e -> hok e ->
+    opt f cancun pc e <> Err KeyErr /\ forall r, opt f cancun pc e = Ok r -> wf (snd r) /\ hok (snd r).
+Proof. intros f cancun pc e W H. exact (opt_good f cancun pc e W H). Qed.
+Print Assumptions optimize_keeps_hereditary_uniqueness.
 
 (* the hypotheses are satisfiable: a concrete state space with a byte memory and big-endian words (MemInst.v) *)
 Example semok_memok_inhabited : SemOk InstSem /\ inhabited (MemOk InstSem).
